@@ -1,7 +1,7 @@
 package main
 
 import (
-	"fmt"
+	"slices"
 	"go/ast"
 	"go/token"
 	"go/types"
@@ -338,30 +338,74 @@ func ruleFIELD1(c *Ctx) {
 	} else {
 		info := f.Info()
 		ci, cs := ft.Single["MatchCaseInsensitiveNames"], ft.Single["MatchCaseSensitiveDelimiter"]
-		okOuter, okInner := false, false
-		for _, ifs := range findAll[*ast.IfStmt](f.Body()) {
-			fr := flagsRead(info, ifs.Cond)
-			consts := map[string]bool{}
-			ast.Inspect(ifs.Cond, func(nd ast.Node) bool {
-				if be, ok := nd.(*ast.BinaryExpr); ok && (be.Op == token.EQL || be.Op == token.NEQ) {
-					if o := IdentObj(info, be.Y); o != nil {
-						consts[fmt.Sprintf("%s%s", be.Op, o.Name())] = true
+		// atoms: 0 casing==caseIgnore, 1 casing==caseStrict, 2 MatchCaseInsensitiveNames, 3 MatchCaseSensitiveDelimiter, 4 strings.EqualFold(name, f.name)
+		foldArgs := false
+		atom := func(e ast.Expr) (int, bool, bool) {
+			switch x := e.(type) {
+			case *ast.BinaryExpr:
+				if x.Op == token.EQL || x.Op == token.NEQ {
+					l, r := ast.Unparen(x.X), ast.Unparen(x.Y)
+					if fld := SelField(info, r); fld != nil && fld.Name() == "casing" {
+						l, r = r, l
 					}
-				}
-				return true
-			})
-			if fr == ci && consts["==caseIgnore"] && consts["!=caseStrict"] {
-				okOuter = true
-			}
-			if fr == cs {
-				if be, ok := ast.Unparen(ifs.Cond).(*ast.BinaryExpr); ok && be.Op == token.LOR {
-					if u, ok := ast.Unparen(be.X).(*ast.UnaryExpr); ok && u.Op == token.NOT {
-						if call, ok := ast.Unparen(be.Y).(*ast.CallExpr); ok && FuncCall(info, call, "strings", "EqualFold") {
-							okInner = true
+					if fld := SelField(info, l); fld != nil && fld.Name() == "casing" {
+						if o := IdentObj(info, r); o != nil {
+							switch o.Name() {
+							case "caseIgnore":
+								return 0, x.Op == token.NEQ, true
+							case "caseStrict":
+								return 1, x.Op == token.NEQ, true
+							}
 						}
 					}
 				}
+			case *ast.CallExpr:
+				if mm, _, v, ok := FlagCall(info, x); ok && mm == "Get" {
+					switch v &^ 1 {
+					case ci:
+						return 2, false, true
+					case cs:
+						return 3, false, true
+					}
+				}
+				if FuncCall(info, x, "strings", "EqualFold") && len(x.Args) == 2 {
+					var names []string
+					for _, a := range x.Args {
+						ast.Inspect(a, func(nd ast.Node) bool {
+							if id, ok := nd.(*ast.Ident); ok {
+								names = append(names, id.Name)
+							}
+							return true
+						})
+					}
+					if slices.Contains(names, "name") && len(names) >= 3 {
+						foldArgs = true
+					}
+					return 4, false, true
+				}
 			}
+			return 0, false, false
+		}
+		tt := TruthTable(f, 5, atom, func(v uint) bool { return v&3 != 3 })
+		okOuter, okInner := len(tt) > 0, len(tt) > 0
+		for v, got := range tt {
+			a0, a1, a2, a3, a4 := v&1 != 0, v&2 != 0, v&4 != 0, v&8 != 0, v&16 != 0
+			outer := a0 || (a2 && !a1)
+			inner := !a3 || a4
+			want := triNo
+			if outer && inner {
+				want = triYes
+			}
+			if got != want {
+				if !outer || (outer && inner) {
+					okOuter = false
+				} else {
+					okInner = false
+				}
+			}
+		}
+		if !foldArgs {
+			okInner = false
 		}
 		c.Oblige("fold:casing-and-option", f.Pos(), okOuter, "matchFoldedName does not implement `casing == caseIgnore || (MatchCaseInsensitiveNames && casing != caseStrict)`")
 		c.Oblige("fold:delimiter-option", f.Pos(), okInner, "matchFoldedName does not implement `!MatchCaseSensitiveDelimiter || EqualFold`")
